@@ -112,6 +112,9 @@ func fsDone(t *Thread, name string, res string, mutated bool, paths []string, er
 	}
 }
 
+// RenameFault, when set, may make FSRename fail without touching the disk.
+var RenameFault func(a, b string) error
+
 // ReadFault, when set, may make a successful FSReadFile fail instead (injected I/O error).
 var ReadFault func(path string) error
 
@@ -216,7 +219,13 @@ func FSRename(a, b string) error {
 		return os.Rename(a, b)
 	}
 	t := fsOp("rename", []fsAcc{{path: a, write: true, subtree: true}, {path: b, write: true, subtree: true}})
-	err := os.Rename(a, b)
+	var err error
+	if RenameFault != nil {
+		err = RenameFault(a, b) // environment answer decided by the harness (e.g. EXDEV across a device boundary)
+	}
+	if err == nil {
+		err = os.Rename(a, b)
+	}
 	fsDone(t, "rename", fmt.Sprint(a, b, err == nil), true, []string{a, b}, err)
 	return err
 }
